@@ -9,9 +9,9 @@ import (
 // ---- C15: decode result independent of the receiver's prior content ----
 func init() {
 	suites["C15"] = func(o *Out, g *Gen, thorough bool) map[string]any {
-		per := 6
+		per := 16
 		if thorough {
-			per = 100
+			per = 300
 		}
 		for _, t := range schema.Types {
 			for i := 0; i < per; i++ {
@@ -116,9 +116,9 @@ func mutateObj(rv reflect.Value) {
 
 func init() {
 	suites["C16"] = func(o *Out, g *Gen, thorough bool) map[string]any {
-		per := 5
+		per := 12
 		if thorough {
-			per = 80
+			per = 200
 		}
 		for _, t := range schema.Types {
 			for i := 0; i < per; i++ {
@@ -220,9 +220,9 @@ func (g *Gen) withNils(v *Val, p float64) *Val {
 
 func init() {
 	suites["C17"] = func(o *Out, g *Gen, thorough bool) map[string]any {
-		per := 6
+		per := 12
 		if thorough {
-			per = 100
+			per = 250
 		}
 		check := func(what string, v *Val, obj any) {
 			var r EncResult
